@@ -352,12 +352,26 @@ func (h *harness) runStaticNames(ctx *bex.Ctx) {
 			vlang.MethodN(vlang.MapN([]string{"k", n}, I(7), two), n, I(3), I(4)),
 		)
 	}
+	// one call site m.name(..) that sees maps with and without a closure stored under name, in both orders
+	for _, n := range []string{"get", "size", "hook"} {
+		one := vlang.LamN([]string{"p"}, op("+", op("*", v("p"), I(10)), v("a")))
+		plain := vlang.MapN([]string{"k"}, I(1))
+		withC := vlang.MapN([]string{"k", n}, I(2), one)
+		call := vlang.LamN([]string{"o"}, vlang.TryN(vlang.MethodN(v("o"), n, I(3)), I(-1)))
+		for _, order := range [][]*vlang.Node{{plain, withC}, {withC, plain}, {plain, withC, plain, withC}, {withC, plain, withC}} {
+			progs = append(progs,
+				vlang.MethodN(vlang.ListN(order...), "map", call),
+				vlang.LetN("f", call, vlang.ListN(vlang.CallN(v("f"), order[0]), vlang.CallN(v("f"), order[1]), vlang.CallN(v("f"), order[len(order)-1]))),
+				vlang.FuncN("f", []string{"o"}, vlang.TryN(vlang.MethodN(v("o"), n, v("a")), I(-1)), vlang.ListN(vlang.CallN(v("f"), order[0]), vlang.CallN(v("f"), order[1]))),
+			)
+		}
+	}
 	if ctx.Shard == 0 {
 		for _, p := range progs {
 			h.check(ctx, p, nil)
 		}
 	}
-	ctx.SpaceDone("4 static-function names (abs, sqrt, min, string) as closure parameter, let (constant and non-constant value), func, captured, inside a list method's callback, as a plain value x 10 templates; 4 map-method names (get, put, size, map) as keys of closure-valued map fields x 4 templates (constant and non-constant maps)")
+	ctx.SpaceDone("one call site m.name(..) reached with maps that do and do not store a closure under name, in 4 orders x 3 names x 3 forms; 4 static-function names (abs, sqrt, min, string) as closure parameter, let (constant and non-constant value), func, captured, inside a list method's callback, as a plain value x 10 templates; 4 map-method names (get, put, size, map) as keys of closure-valued map fields x 4 templates (constant and non-constant maps)")
 }
 
 func run(ctx *bex.Ctx) {
